@@ -9,8 +9,7 @@ Close Scope N_scope.
 (* Refinement, all finite operation sequences, from the empty simulation (with or without a tree):
    every reported result is one the list specification allows, and the particles / N_active / N_var after
    the run are exactly those of the specification: order preserved by keep_sorted removals; unsorted
-   removal = last particle moved into the hole (for an active particle: last active particle into the
-   hole, last particle into its slot); growth of the storage invisible; N_active stays consistent.
+   removal = last particle moved into the hole; growth of the storage invisible; N_active stays consistent.
    [run_ok]: the only hypothesis is that the user's own writes of N_active are consistent when made. *)
 Theorem C14_refines : forall tr ops s' rs, run_ok (init tr) ops -> run (init tr) ops = (s', rs) ->
   spec_trace (mkA [] (-1) 0 tr) ops rs (abs s') /\ nact_ok (abs s').
@@ -40,10 +39,9 @@ Theorem C14_invalid_rejected : forall s o s' r, wf s -> invalid (abs s) o -> ste
 Proof. exact invalid_rejected. Qed.
 Print Assumptions C14_invalid_rejected.
 
-(* No array access of any run leaves its allocation (particles and lookup table).  The hypothesis is
-   needed: the unsorted removal reads particles[N_active-1], which is inside the storage only while
-   N_active <= N. *)
-Theorem C14_memory_safe : forall tr ops, run_ok (init tr) ops -> oob (fst (run (init tr) ops)) = 0.
+(* No array access of any run leaves its allocation (particles and lookup table) -- no hypothesis: since
+   95ccee5 the unsorted removal no longer indexes the particle array with N_active. *)
+Theorem C14_memory_safe : forall tr ops, oob (fst (run (init tr) ops)) = 0.
 Proof. exact memory_safe. Qed.
 Print Assumptions C14_memory_safe.
 
@@ -53,6 +51,24 @@ Theorem C14_nactive_consistent : forall s o s' r, wf s -> nact_ok (abs s) -> use
   step s o = (s', r) -> nact_ok (abs s').
 Proof. exact nact_consistent. Qed.
 Print Assumptions C14_nactive_consistent.
+
+(* ... and exactly this is what a successful removal of index i does to N_active (the specification that
+   C14_refines / C14_step_refines tie the code to): decremented iff i < N_active on the order-preserving
+   path and when the last remaining particle goes (no tree); unchanged by a deferred (tree) removal;
+   on the unsorted path unchanged, except clamped to the new N when it would exceed it -- so with
+   N_active < N a test particle moved into an active slot becomes active and the number of active
+   particles does NOT drop. *)
+Theorem C14_nactive_rule : forall a i keep, aNact (aremove a i keep) =
+  if (length (aps a) =? 1) && negb (atree a) then (if (Z.of_nat i <? aNact a)%Z then aNact a - 1 else aNact a)%Z
+  else if keep then (if (Z.of_nat i <? aNact a)%Z then aNact a - 1 else aNact a)%Z
+  else if atree a then aNact a
+  else if (Z.of_nat (length (aps a) - 1) <? aNact a)%Z then Z.of_nat (length (aps a) - 1) else aNact a.
+Proof.
+  intros. unfold aremove, dec_nact, clamp_nact.
+  destruct ((length (aps a) =? 1) && negb (atree a)); [reflexivity|].
+  destruct keep; [reflexivity|]. destruct (atree a); reflexivity.
+Qed.
+Print Assumptions C14_nactive_rule.
 
 (* ---- Python container (rebound/particles.py) as a thin layer over the model: coq/C14/PyLayer.v *)
 (* reads (int / negative / c_uint32 / str keys), `del sim.particles[k]` (a no-op in the source), slices
@@ -130,14 +146,14 @@ Proof. exact ks_remove_last_refuted. Qed.
 Print Assumptions C14_trace_Ks_remove_last_refuted.
 
 (* Non-vacuity: a reachable state with a STALE lookup table (4 entries for 3 particles: (9 -> slot 3) points
-   past N, (5 -> slot 0) points at a particle that now carries hash 0), reached through an unsorted removal of
-   an active particle with N_active = 2 (N_active becomes 1), satisfies the hypotheses; the lookups of 9 and 5
-   hit the stale entries, rebuild, and return particles that carry the hash (indices 1 and 2); reb_hash of
+   past N, (5 -> slot 0) points at a particle that now carries hash 9), reached through an unsorted removal of
+   an active particle with N_active = 2 (N_active stays 2, N becomes 3), satisfies the hypotheses; the lookups of 9 and 5
+   hit the stale entries, rebuild, and return particles that carry the hash (indices 0 and 2); reb_hash of
    "star" is the library's value. *)
 Example C14_hypotheses_inhabited :
   run_ok (init false) stale_ops /\ inv stale_example /\
-  nlook stale_example = 4 /\ sN stale_example = 3 /\ sNact stale_example = 1%Z /\
-  snd (by_hash stale_example 9%N) = Some 1 /\ snd (by_hash stale_example 5%N) = Some 2 /\
+  nlook stale_example = 4 /\ sN stale_example = 3 /\ sNact stale_example = 2%Z /\
+  snd (by_hash stale_example 9%N) = Some 0 /\ snd (by_hash stale_example 5%N) = Some 2 /\
   invalid (abs stale_example) (RemoveIdx 3 true) /\
   reb_hash [115; 116; 97; 114]%N = 3376927956%N.
 Proof.
